@@ -10,3 +10,9 @@ namespace Jelly.Py
 def flowExtend (rows : List Row) : M Flow Unit := modify fun f => { f with rows := f.rows ++ rows }
 
 end Jelly.Py
+
+namespace Jelly.Py
+/-- a generator method of a stream: the frames yielded so far are the second component of the state -/
+def onStream (m : M Stream α) : M (Stream × List Frame) α := zoom (·.1) (fun s v => (v, s.2)) m
+def yieldFrame (fr : Frame) : M (Stream × List Frame) Unit := modify fun s => (s.1, s.2 ++ [fr])
+end Jelly.Py
